@@ -3,11 +3,13 @@ from vlib.runner import Obl
 
 PROPERTY = "C20"
 EXPLANATION = (
+    "A-level: the real TOC.fill on the lxml model - three headings of symbolic levels, every outline level and TOC position: listed entries, their order, numbers "
+    "(reference model applied to the LISTED headings), exact entry text, kept title, idempotence. "
     "C20 (table of contents numbering): TOC._header_numbering, the counter bookkeeping behind every filled entry, is executed symbolically over level "
     "sequences and compared with a reference outline model (a heading of level L increments counter L and restarts deeper counters; missing shallower "
     "counters count as 1), whose numbers are strictly increasing in outline order. "
 )
-OUTSIDE = ("TOC.fill's selection by outline level, entry text and idempotence (pending symdom obligations), sequences longer than 5 headings, "
+OUTSIDE = ("documents with more than 3 headings at the TOC.fill level, heading texts longer than 2 characters or containing spans, default TOC styles (use_default_styles=True), sequences longer than 5 headings at the numbering level, "
            "the odfdo-headers script")
 ASSUMPTIONS = ["levels 1..10"]
 TRUSTED = _T
@@ -26,4 +28,22 @@ OBLIGATIONS = [
     Obl(name=f"numbering_deep_{a}", module="h_names", func="numbering_deep", timeout=200, replay="r_h_names:numbering_deep",
         env={"VERIF_A": str(a)}, extra={"a": a}, weight=35, bounds=f"3 headings: level {a}, then two arbitrary levels 1..10",
         encodes=_ENC, stubs=[]) for a in range(1, 11)
+]
+
+
+_AENC = ["src/odfdo/toc.py:TOC.fill,_header_numbering,TOC.__init__,body (property)", "src/odfdo/body.py:Body.headers", "src/odfdo/header.py:Header.__init__",
+         "src/odfdo/paragraph.py:Paragraph.__init__,append_plain_text", "src/odfdo/element.py:document_body,get_attribute_integer,inner_text"]
+_ASTUB = ["/verif/shadow/lxml (symdom)", "symsupport.SymEText/ETextShim, uncached xpath_compile"]
+for _pos in (0, 3):
+    for _out in (0, 1, 2, 3):
+        OBLIGATIONS.append(Obl(name=f"toc_levels_pos{_pos}_outline{_out}", module="h_toc", func="toc_levels", shadow=True, timeout=400,
+                               env={"VERIF_TOC_POS": str(_pos), "VERIF_TOC_OUTLINE": str(_out)}, extra={"toc_pos": _pos, "outline": _out},
+                               replay="r_h_toc:toc_levels", weight=75, tier="quick" if (_pos == 0 or _out == 2) else "thorough",
+                               bounds=f"3 headings with levels 1..3 each (symbolic), outline level {_out}, TOC {'before' if _pos == 0 else 'after'} the headings",
+                               encodes=_AENC, stubs=_ASTUB))
+OBLIGATIONS += [
+    Obl(name="toc_twice", module="h_toc", func="toc_twice", shadow=True, timeout=200, replay="r_h_toc:toc_twice", weight=27,
+        bounds="3 headings (levels 1, 1..2, 1..3), outline 1..2, TOC between the headings; fill; fill", encodes=_AENC, stubs=_ASTUB),
+    Obl(name="toc_text", module="h_toc", func="toc_text", shadow=True, timeout=400, replay="r_h_toc:toc_text", weight=90,
+        bounds="2 headings, the second with a symbolic text of <= 2 characters over {a, space}, outline 0..2", encodes=_AENC, stubs=_ASTUB),
 ]
